@@ -8,7 +8,7 @@
 
   op syntax  kind:payload   (ints decimal, bytes hex, lists comma separated, empty = "-")
 -/
-import Golib.Prim.Ops
+import Golib.Prim.Extra
 import Driver.Common
 
 open Prim Drv
@@ -102,6 +102,57 @@ def answer (line : String) : String :=
       | some (v, _) => s!"{v}"
       | none => "fail"
     | _, _ => "bad-op"
+  | ["U", w, hex] =>            -- ReadUnsignedShort / ReadUnsignedInt: unsigned read of w bytes
+    match parseNat w, ofHex hex with
+    | some w, some bs =>
+      match P.run (rdU w) bs with
+      | some (v, rest) => s!"{v} {rest.length}"
+      | none => "fail"
+    | _, _ => "bad-op"
+  | ["DL", hex] =>              -- ReadByte, then ReadDecimalLen(that byte)
+    match ofHex hex with
+    | some bs =>
+      match P.run (P.bind (rdU 1) (fun b => decDecimalLen b)) bs with
+      | some (v, rest) => s!"{v} {rest.length}"
+      | none => "fail"
+    | none => "bad-op"
+  | ["BL", mx, hex] =>          -- ReadIntBytesLimit(max)
+    match parseNat mx, ofHex hex with
+    | some mx, some bs =>
+      match P.run (decBytes32Limit mx) bs with
+      | some (v, rest) => s!"{hexOf v} {rest.length}"
+      | none => "fail"
+    | _, _ => "bad-op"
+  | ["DA", hex] =>              -- ReadDecimalArray
+    match ofHex hex with
+    | some bs =>
+      match P.run decDecArr bs with
+      | some (v, rest) => s!"{listOf toString v} {rest.length}"
+      | none => "fail"
+    | none => "bad-op"
+  | ["DI", hex] =>              -- ReadDecimalArrayInt
+    match ofHex hex with
+    | some bs =>
+      match P.run decDecArrInt bs with
+      | some (v, rest) => s!"{listOf toString v} {rest.length}"
+      | none => "fail"
+    | none => "bad-op"
+  | ["WDA", xs] =>              -- decimal count, then decimals
+    match parseList parseInt xs with
+    | some xs => hexOf (encDecArr xs)
+    | none => "bad-op"
+  | ["H", src, ver, pcode, lic, ops] =>     -- program, then WriteHeader
+    match parseNat src, parseNat ver, parseInt pcode, parseInt lic, parseOps ops with
+    | some src, some ver, some pcode, some lic, some ops =>
+      let w := (Writer.exec ops).header src ver pcode lic
+      s!"{hexOf w.buf} {w.written}"
+    | _, _, _, _, _ => "bad-op"
+  | ["HS", src, ver, pcode, oid, key, ops] => -- program, then WriteSecureHeader
+    match parseNat src, parseNat ver, parseInt pcode, parseInt oid, parseInt key, parseOps ops with
+    | some src, some ver, some pcode, some oid, some key, some ops =>
+      let w := (Writer.exec ops).secureHeader src ver pcode oid key
+      s!"{hexOf w.buf} {w.written}"
+    | _, _, _, _, _, _ => "bad-op"
   | _ => "bad-op"
 where
   listOfOps (vs : List Op) : String :=
